@@ -202,7 +202,14 @@ impl Container {
             .locate(pack_info.uuid, &pack_info.pack_location)?;
         match pack_reader {
             None => Ok(Some(MayMissPack::MISSING(pack_info.clone()))),
-            Some(r) => Ok(Some(MayMissPack::FOUND(ContentPack::new(r)).transpose()?)),
+            Some(r) => {
+                let pack = ContentPack::new(r)?;
+                if pack.uuid() != pack_info.uuid {
+                    // What is stored at the recorded location is another pack.
+                    return Ok(Some(MayMissPack::MISSING(pack_info.clone())));
+                }
+                Ok(Some(MayMissPack::FOUND(pack)))
+            }
         }
     }
 
